@@ -2091,6 +2091,15 @@ static void compile_expr(CG *cg, ASTNode *node) {
 
 /* ── Statement compilation ──────────────────────────────────────── */
 
+/* Parent state saved while a nested function is compiled (heap-allocated, see AST_FUNCTION) */
+typedef struct {
+    Local locals[MAX_LOCALS];
+    LoopCtx loops[MAX_LOOP_DEPTH];
+    Upvalue upvalues[MAX_UPVALUES];
+    Upvalue child_upvalues[MAX_UPVALUES];
+    CG parent_snapshot;
+} NestedFnSave;
+
 static void compile_stmt(CG *cg, ASTNode *node) {
     if (!node || cg->had_error) return;
 
@@ -2412,29 +2421,30 @@ static void compile_stmt(CG *cg, ASTNode *node) {
         uint8_t *saved_code = cg->code;
         uint32_t saved_code_size = cg->code_size;
         uint32_t saved_code_cap = cg->code_cap;
-        Local saved_locals[MAX_LOCALS];
-        memcpy(saved_locals, cg->locals, sizeof(cg->locals));
+        /* The saved tables and the parent snapshot are large (sizeof(CG) alone is tens of KB):
+         * they live on the heap so that compile_stmt's frame stays small - it recurses once per
+         * nesting level of blocks, if/else-if chains and nested functions. */
+        NestedFnSave *sv = malloc(sizeof(NestedFnSave));
+        if (!sv) { cg_error(cg, node->line, "out of memory"); break; }
+        memcpy(sv->locals, cg->locals, sizeof(cg->locals));
         uint16_t saved_local_count = cg->local_count;
         uint16_t saved_param_count = cg->param_count;
-        LoopCtx saved_loops[MAX_LOOP_DEPTH];
-        memcpy(saved_loops, cg->loops, sizeof(cg->loops));
+        memcpy(sv->loops, cg->loops, sizeof(cg->loops));
         int saved_loop_depth = cg->loop_depth;
-        Upvalue saved_upvalues[MAX_UPVALUES];
-        memcpy(saved_upvalues, cg->upvalues, sizeof(cg->upvalues));
+        memcpy(sv->upvalues, cg->upvalues, sizeof(cg->upvalues));
         uint16_t saved_upvalue_count = cg->upvalue_count;
         CG *saved_parent = cg->parent;
 
         /* Set up child compilation context using same CG struct */
-        CG parent_snapshot;
-        memcpy(&parent_snapshot, cg, sizeof(CG));
+        memcpy(&sv->parent_snapshot, cg, sizeof(CG));
         /* Restore parent's locals for upvalue resolution */
-        memcpy(parent_snapshot.locals, saved_locals, sizeof(saved_locals));
-        parent_snapshot.local_count = saved_local_count;
-        parent_snapshot.upvalues[0].name = NULL; /* sentinel */
-        parent_snapshot.upvalue_count = saved_upvalue_count;
-        parent_snapshot.parent = saved_parent;
+        memcpy(sv->parent_snapshot.locals, sv->locals, sizeof(sv->locals));
+        sv->parent_snapshot.local_count = saved_local_count;
+        sv->parent_snapshot.upvalues[0].name = NULL; /* sentinel */
+        sv->parent_snapshot.upvalue_count = saved_upvalue_count;
+        sv->parent_snapshot.parent = saved_parent;
 
-        cg->parent = &parent_snapshot;
+        cg->parent = &sv->parent_snapshot;
         cg->code = malloc(CODE_INITIAL);
         cg->code_size = 0;
         cg->code_cap = CODE_INITIAL;
@@ -2470,8 +2480,7 @@ static void compile_stmt(CG *cg, ASTNode *node) {
 
         /* Save nested function's upvalue info before restoring parent state */
         uint16_t child_upvalue_count = cg->upvalue_count;
-        Upvalue child_upvalues[MAX_UPVALUES];
-        memcpy(child_upvalues, cg->upvalues, sizeof(Upvalue) * child_upvalue_count);
+        memcpy(sv->child_upvalues, cg->upvalues, sizeof(Upvalue) * child_upvalue_count);
 
         /* Finalize nested function in module */
         if (!cg->had_error) {
@@ -2488,24 +2497,25 @@ static void compile_stmt(CG *cg, ASTNode *node) {
         cg->code = saved_code;
         cg->code_size = saved_code_size;
         cg->code_cap = saved_code_cap;
-        memcpy(cg->locals, saved_locals, sizeof(cg->locals));
+        memcpy(cg->locals, sv->locals, sizeof(cg->locals));
         cg->local_count = saved_local_count;
         cg->param_count = saved_param_count;
-        memcpy(cg->loops, saved_loops, sizeof(cg->loops));
+        memcpy(cg->loops, sv->loops, sizeof(cg->loops));
         cg->loop_depth = saved_loop_depth;
-        memcpy(cg->upvalues, saved_upvalues, sizeof(cg->upvalues));
+        memcpy(cg->upvalues, sv->upvalues, sizeof(cg->upvalues));
         cg->upvalue_count = saved_upvalue_count;
         cg->parent = saved_parent;
 
         /* At the definition site: push captured values, then emit CLOSURE_NEW */
         for (int i = 0; i < child_upvalue_count; i++) {
-            if (child_upvalues[i].is_local) {
-                emit_op(cg, OP_LOAD_LOCAL, (int)child_upvalues[i].parent_slot);
+            if (sv->child_upvalues[i].is_local) {
+                emit_op(cg, OP_LOAD_LOCAL, (int)sv->child_upvalues[i].parent_slot);
             } else {
-                emit_op(cg, OP_LOAD_UPVALUE, 0, (int)child_upvalues[i].parent_slot);
+                emit_op(cg, OP_LOAD_UPVALUE, 0, (int)sv->child_upvalues[i].parent_slot);
             }
         }
         emit_op(cg, OP_CLOSURE_NEW, (uint32_t)fn_idx, (int)child_upvalue_count);
+        free(sv);
 
         /* Store closure in a local variable named after the function */
         uint16_t closure_slot = local_add(cg, name, node->line);
